@@ -457,6 +457,12 @@ var c16b = newChk("C16", "message-builders",
 		if _, err := dhcpv6.NewAdvertiseFromSolicit(nil); err == nil {
 			return obs.Failf("C16/advertise/nil", "error", "accepted nil")
 		}
+		if _, err := dhcpv6.NewRequestFromAdvertise(nil); err == nil {
+			return obs.Failf("C16/request/nil", "error", "accepted nil")
+		}
+		if _, err := dhcpv6.NewReplyFromMessage(nil); err == nil {
+			return obs.Failf("C16/reply/nil", "error", "accepted nil")
+		}
 		// the builders read their input, they do not change it; and what they returned stays what it was while the
 		// builders run again on another client's message
 		inBefore := m.ToBytes()
